@@ -16,6 +16,21 @@ Variable enc_finish : enc -> bytes.                    (* Drop -> try_finish: th
 
 Inductive gin := GGz (e : enc) | GOff.                  (* Inner::Gzipped(e) | Inner::Dead or dropped *)
 
+(* one GzEncoder::flush: the sync-flush emission is pushed through the chunk writer, then
+   chunker::Writer::flush publishes it; None when either step fails *)
+Definition gflush1 (s : cstate) (e : enc) : cstate * option enc * list N * bytes :=
+  let '(e', em) := enc_flush e in
+  let '(s1, r, wk) := cstep s (OWriteAll em) in
+  match r with
+  | RIo true =>
+      let '(s2, r2, wk2) := cstep s1 OFlush in          (* self.obj.flush(): chunker::Writer::flush *)
+      match r2 with
+      | RIo true => (s2, Some e', wk ++ wk2, em)
+      | _ => (s2, None, wk ++ wk2, em)
+      end
+  | _ => (s1, None, wk, em)
+  end.
+
 (* one operation on BodyWriter(Gzipped) + body: new chunker state, new inner, result, wake-ups, bytes emitted *)
 Definition gstep (s : cstate) (g : gin) (o : cop) : cstate * gin * copres * list N * bytes :=
   match g, o with
@@ -27,16 +42,16 @@ Definition gstep (s : cstate) (g : gin) (o : cop) : cstate * gin * copres * list
       | _ => (s', GOff, RWrite None, wk, em)               (* r.is_err() => Inner::Dead *)
       end
   | GGz e, OFlush =>
-      let '(e', em) := enc_flush e in
-      let '(s1, r, wk) := cstep s (OWriteAll em) in
-      match r with
-      | RIo true =>
-          let '(s2, r2, wk2) := cstep s1 OFlush in          (* self.obj.flush(): chunker::Writer::flush *)
-          match r2 with
-          | RIo true => (s2, GGz e', RIo true, wk ++ wk2, em)
-          | _ => (s2, GOff, RIo false, wk ++ wk2, em)
+      (* `w.flush().and_then(|()| w.flush())` (fix F10): flate2 asks for the sync flush only once, and
+         the request is lost when output is still pending inside the encoder (after a partially
+         accepted write); the first flush drains that, the second one syncs *)
+      match gflush1 s e with
+      | (s1, Some e1, wk1, em1) =>
+          match gflush1 s1 e1 with
+          | (s2, Some e2, wk2, em2) => (s2, GGz e2, RIo true, wk1 ++ wk2, em1 ++ em2)
+          | (s2, None, wk2, em2) => (s2, GOff, RIo false, wk1 ++ wk2, em1 ++ em2)
           end
-      | _ => (s1, GOff, RIo false, wk, em)
+      | (s1, None, wk1, em1) => (s1, GOff, RIo false, wk1, em1)
       end
   | GGz e, ODropWriter =>
       let em := enc_finish e in
@@ -63,7 +78,7 @@ Fixpoint session (e : enc) (ops : list cop) : bytes :=
   match ops with
   | [] => []
   | OWrite d :: t => let '(e', em, _) := enc_write e d in em ++ session e' t
-  | OFlush :: t => let '(e', em) := enc_flush e in em ++ session e' t
+  | OFlush :: t => let '(e1, em1) := enc_flush e in let '(e2, em2) := enc_flush e1 in em1 ++ em2 ++ session e2 t
   | ODropWriter :: _ => enc_finish e
   | _ :: t => session e t
   end.
